@@ -12,7 +12,7 @@ SPEC = {
  "C03": ("SetItem XorProof", ["setitem_correct","getitem_factor","resolve_cells","raw_broadcast_correct"]),
  "C04": ("UfuncProof XorProof", ["ufunc2_correct","raw_broadcast_correct"]),
  "C05": ("ReduceProof ArgmaxProof", ["reduce_correct","first_occurrences","argmax_correct","argmin_correct"]),
- "C06": ("Chain MaterialiseWF", ["derived_denote","chain_correct","indistinguishable_read","materialise_wf","rows_of_denote"]),
+ "C06": ("Chain MaterialiseWF NoWriteThrough", ["derived_denote","chain_correct","indistinguishable_read","materialise_wf","rows_of_denote","assign_leaves_older_arrays_unchanged"]),
  "C07": ("ScanProof AccumProof DiffProof SortProof BucketSort LexSort UniqueProof UniqueLens", ["cumsum_correct","accumulate_correct","diff_correct","sort_buckets","two_pass_rows","index_array_char","sort_correct","unique_correct"]),
  "C08": ("StructProof SubsetProof RSliceProof NonzeroProof PaddedProof Struct2 Struct2Proof", ["concat0_correct","concat1_correct","like_correct","where_correct","where_scalar_correct","subset_correct","ragged_slice_correct","nonzero_correct","padded_correct"]),
  "C09": ("ColProof ColSum Struct2 Struct2Proof", ["col_counts_correct","colsum_correct","get_column_values_correct"]),
